@@ -60,6 +60,9 @@ type evalObs struct {
 	leanOK bool
 	std    []RevResult // the Standard's own evaluator (published tables), when asked for
 	hasStd bool
+	// what the library's own aggregation makes of this evaluation's results (the text users see)
+	aggAllowed           bool
+	aggReason, aggDetail string
 }
 
 var withStd bool
@@ -120,9 +123,10 @@ func policySweep(c *Ctx, n int, invalidEvery int, allMinors bool, perPodMinors i
 			}
 			for _, lvl := range []string{"baseline", "restricted"} {
 				for _, m := range ms {
-					goRes, _ := ev.Eval(mkLV(lvl, m), pc.Pod)
+					goRes, raw := ev.Eval(mkLV(lvl, m), pc.Pod)
+					agg := policy.AggregateCheckResults(raw)
 					ops = append(ops, J{"op": "evalPod", "level": lvl, "version": minorJSON(m), "relax": false, "pod": proj})
-					obs = append(obs, evalObs{pc: pc, valid: valid, level: lvl, minor: m, goRes: goRes})
+					obs = append(obs, evalObs{pc: pc, valid: valid, level: lvl, minor: m, goRes: goRes, aggAllowed: agg.Allowed, aggReason: agg.ForbiddenReason(), aggDetail: agg.ForbiddenDetail()})
 					if withStd {
 						stdOps = append(stdOps, J{"op": "stdEval", "level": lvl, "version": minorJSON(m), "pod": proj})
 					}
@@ -498,6 +502,26 @@ func runC13(c *Ctx) {
 					c.Violate(Finding{Desc: fmt.Sprintf("control %s is listed at %s although the pod does not violate it", id, verName(o.level, o.minor)), Key: "control-spurious",
 						Input: J{"level": o.level, "minor": o.minor, "pod": o.pc.Pod}, Go: bits(o.goRes), Lean: bits(o.std)})
 				}
+			}
+		}
+		// the aggregate text (what a denial, a warning, an audit annotation carries): each violated control once, in the order
+		// of the results, "reason (detail)" joined by ", " — written here from the per-control results, nothing else
+		{
+			var reasons, parts []string
+			for _, r := range o.goRes {
+				if r.Allowed {
+					continue
+				}
+				reasons = append(reasons, r.Reason)
+				if r.Detail != "" {
+					parts = append(parts, r.Reason+" ("+r.Detail+")")
+				} else {
+					parts = append(parts, r.Reason)
+				}
+			}
+			if o.aggAllowed != (nfail == 0) || o.aggReason != strings.Join(reasons, ", ") || o.aggDetail != strings.Join(parts, ", ") {
+				c.Violate(Finding{Desc: fmt.Sprintf("the aggregate message at %s is not the list of this pod's violated controls: %s", verName(o.level, o.minor), trunc(o.aggDetail, 400)), Key: "aggregate-text",
+					Input: J{"level": o.level, "minor": o.minor, "pod": o.pc.Pod}, Go: J{"aggregateDetail": trunc(o.aggDetail, 2000), "aggregateReason": o.aggReason}, Lean: trunc(strings.Join(parts, ", "), 2000)})
 			}
 		}
 		if o.leanOK && canon(o.goRes) != canon(o.lean) {
